@@ -87,3 +87,44 @@ pub fn run_states(p: &Program, cfg: &SimCfg, max: usize, fork_after: Option<usiz
     let stats = handle.finish();
     StatesOut { answers, snaps, fork_rest, fork_at, end, stats }
 }
+
+/// Drive the SEARCH itself — the engine's own `step`, without `Solver::next` or `ResultIterator`
+/// — and record after how many scheduling quanta its k-th answer has matured (k = 1..=max).
+/// This is the "search yields n answers after finitely many steps" side of the laziness clause;
+/// what the consumer then needs on top of it is the other side.
+pub fn raw_search(p: &Program, cfg: &SimCfg, max: usize) -> (Vec<u64>, End, Stats) {
+    use proto_vulcan::engine::Engine;
+    use proto_vulcan::stream::{LazyStream, Stream};
+    let handle = Handle::install(cfg, false);
+    let h2 = handle.clone();
+    let mut at: Vec<u64> = vec![];
+    let res = catch_unwind(AssertUnwindSafe(|| {
+        let (_qvars, goal) = build_query_parts(p);
+        let solver = PSolver::new((), false);
+        let engine = Eng::new();
+        let mut stream = solver.start(&goal, PState::new(SimUser::default()));
+        loop {
+            if at.len() >= max {
+                return End::Limit;
+            }
+            match stream {
+                Stream::Empty => return End::Exhausted,
+                Stream::Unit(_) => {
+                    at.push(h2.quanta());
+                    return End::Exhausted;
+                }
+                Stream::Lazy(LazyStream(lazy)) => stream = engine.step(&solver, *lazy),
+                Stream::Cons(_, lazy) => {
+                    at.push(h2.quanta());
+                    stream = Stream::Lazy(lazy);
+                }
+            }
+        }
+    }));
+    let end = match res {
+        Ok(e) => e,
+        Err(payload) => classify_unwind_pub(payload),
+    };
+    let stats = handle.finish();
+    (at, end, stats)
+}
